@@ -3,6 +3,48 @@
 open Model
 open X_fops
 let pi = 3.14159265358979323846
+(* rotation::calc_optimal_rotation for the model: overlap matrix of the (position, reference) pairs as in
+   rotation::build_correlation_matrix / compute_overlap_matrix, eigenvector of its largest eigenvalue (cyclic Jacobi) *)
+let qopt_float (prs : (((float * float) * float) * ((float * float) * float)) list) =
+  let c = Array.make_matrix 3 3 0.0 in
+  List.iter (fun (((x1, y1), z1), ((x2, y2), z2)) ->
+    let a = [| x1; y1; z1 |] and b = [| x2; y2; z2 |] in
+    for i = 0 to 2 do for j = 0 to 2 do c.(i).(j) <- c.(i).(j) +. a.(i) *. b.(j) done done) prs;
+  let cxx = c.(0).(0) and cxy = c.(0).(1) and cxz = c.(0).(2) and cyx = c.(1).(0) and cyy = c.(1).(1) and cyz = c.(1).(2)
+  and czx = c.(2).(0) and czy = c.(2).(1) and czz = c.(2).(2) in
+  let s = Array.make_matrix 4 4 0.0 in
+  let set i j v = s.(i).(j) <- v; s.(j).(i) <- v in
+  set 0 0 (cxx +. cyy +. czz); set 1 0 (cyz -. czy); set 2 0 (czx -. cxz); set 3 0 (cxy -. cyx);
+  set 1 1 (cxx -. cyy -. czz); set 2 1 (cxy +. cyx); set 3 1 (cxz +. czx);
+  set 2 2 (cyy -. cxx -. czz); set 3 2 (cyz +. czy); set 3 3 (czz -. cxx -. cyy);
+  let v = Array.make_matrix 4 4 0.0 in
+  for i = 0 to 3 do v.(i).(i) <- 1.0 done;
+  for _sweep = 1 to 60 do
+    for p = 0 to 2 do for q = p + 1 to 3 do
+      if Float.abs s.(p).(q) > 1e-300 then begin
+        let theta = (s.(q).(q) -. s.(p).(p)) /. (2.0 *. s.(p).(q)) in
+        let t = (if theta >= 0.0 then 1.0 else -1.0) /. (Float.abs theta +. sqrt (theta *. theta +. 1.0)) in
+        let cs = 1.0 /. sqrt (t *. t +. 1.0) in let sn = t *. cs in
+        for k = 0 to 3 do
+          let skp = s.(k).(p) and skq = s.(k).(q) in
+          s.(k).(p) <- cs *. skp -. sn *. skq; s.(k).(q) <- sn *. skp +. cs *. skq
+        done;
+        for k = 0 to 3 do
+          let spk = s.(p).(k) and sqk = s.(q).(k) in
+          s.(p).(k) <- cs *. spk -. sn *. sqk; s.(q).(k) <- sn *. spk +. cs *. sqk
+        done;
+        for k = 0 to 3 do
+          let vkp = v.(k).(p) and vkq = v.(k).(q) in
+          v.(k).(p) <- cs *. vkp -. sn *. vkq; v.(k).(q) <- sn *. vkp +. cs *. vkq
+        done
+      end
+    done done
+  done;
+  let best = ref 0 in
+  for i = 1 to 3 do if s.(i).(i) > s.(!best).(!best) then best := i done;
+  let b = !best in
+  (((v.(0).(b), v.(1).(b)), v.(2).(b)), v.(3).(b))
+
 let rec nat_of_int n = if n <= 0 then O else S (nat_of_int (n - 1))
 let () =
   try
@@ -48,6 +90,7 @@ let () =
           | "dipoleAngle" -> let pbc = nb () in KDipoleAngle pbc
           | "polarTheta" -> KPolarTheta
           | "polarPhi" -> KPolarPhi
+          | "rmsd" -> let n = ni () in let rf = List.init n (fun _ -> v3 ()) in KRmsd (rf, qopt_float)
           | s -> failwith ("kind " ^ s) in
         let cvc () =
           let c = nf () in let e = ni () in let k = kind () in
@@ -69,6 +112,10 @@ let () =
             BMeta (List.init nh (fun _ -> let wgt = nf () in let n = ni () in
               (wgt, List.init n (fun _ -> let i = ni () in let c = nf () in let sg = nf () in (nat_of_int i, (c, sg))))))
           | "abmd" -> let k = nf () in let dec = nb () in let i = ni () in let rf = nf () in BAbmd (k, dec, nat_of_int i, rf)
+          | "hist" -> let k = nf () in let nrm = nf () in let sg = nf () in let ng = ni () in
+            let grid = List.init ng (fun _ -> let xg = nf () in let rg = nf () in (xg, rg)) in
+            let nv = ni () in let vs = List.init nv (fun _ -> nat_of_int (ni ())) in
+            BHist (k, nrm, sg, grid, vs)
           | s -> failwith ("bias " ^ s) in
         (try
           let na = ni () in
